@@ -7,7 +7,9 @@
    returned, and C19_total says when it does. *)
 From Coq Require Import ZArith NArith List Bool Lia.
 From CL Require Import Base.Sx Base.Res Base.Str Regex.Rx Model.AddRemove Model.LineCol Model.Lint
-                       Proofs.LintProofs Proofs.LintExample Generated.C19Facts.
+                       Model.LintProps Proofs.LintProofs Proofs.LintExample Generated.C19Facts
+                       Proofs.C02Blocks Proofs.C02BlocksJunkRx Proofs.C02BlocksJunk
+                       Proofs.LintPropsE2E.
 Import ListNotations.
 Open Scope Z_scope.
 
@@ -15,7 +17,7 @@ Section C19.
 Context {K : Type} (keqb : K -> K -> bool).
 Hypothesis keqb_eq : forall a b, keqb a b = true <-> a = b.
 Context {Msg : Type}.
-Variable equals : @entity K -> @entity K -> bool.
+Variable equals : @entity K -> @entity K -> result bool.
 
 Notation entity := (@entity K).
 Notation finding := (@finding K Msg).
@@ -76,7 +78,7 @@ Theorem C19_changed : forall cur chk ref e fs,
   e_junk e = false -> lint_entity (new_linter cur chk ref) e = Ok fs ->
   let differs :=
     exists rl pre r post, ref = Some rl /\ rl = pre ++ r :: post /\ e_key r = e_key e /\
-                          Forall (fun e' => e_key e' <> e_key e) post /\ equals e r = false in
+                          Forall (fun e' => e_key e' <> e_key e) post /\ equals e r = Ok false in
   (differs -> exists p, e_position e 0 = Ok p /\ filter is_changed fs = [changed_finding e p]) /\
   (~ differs -> filter is_changed fs = []).
 Proof. exact (lint_entity_changed keqb keqb_eq equals). Qed.
@@ -101,20 +103,22 @@ Proof.
   auto.
 Qed.
 
-(* unique keys, no junk, checker silent on (e, e), no entity differing from its
-   reference entity: no results *)
+(* unique keys, no junk, checker silent on (e, e), every entity equal to the last
+   reference entity with its key: no results *)
 Theorem C19_clean : forall cur chk ref,
   NoDup (map e_key cur) ->
   (forall e, In e cur -> e_junk e = false) ->
   (forall e, In e cur -> match chk with Some c => c e e | None => [] end = []) ->
-  (forall e, In e cur -> ~ differs_from_reference equals ref e) ->
+  (forall e, In e cur -> equal_to_reference equals ref e) ->
   lint_entities (new_linter cur chk ref) cur = Ok [].
 Proof. exact (lint_entities_clean' keqb keqb_eq equals). Qed.
 
 (* the reference lookup never raises: lint of an entity returns as soon as the
-   entity's position methods resolve the offsets asked for *)
+   entity's position methods resolve the offsets asked for and equals returns
+   for the reference entity it is asked about *)
 Theorem C19_total : forall cur chk ref e,
   (forall off, exists p, e_position e off = Ok p) ->
+  (forall r, ref_entity keqb ref (e_key e) = Some r -> exists b, equals e r = Ok b) ->
   (forall r, In r (match chk with Some c => c e e | None => [] end) ->
              forall v, c_pos r = ValuePos v -> exists p, e_value_position e v = Ok p) ->
   exists fs, lint_entity (new_linter cur chk ref) e = Ok fs.
@@ -149,7 +153,7 @@ Theorem C19_clean_file : forall p ref extra,
   (forall e, In e (parse p p) ->
              check_results (file_checker parse Tests get_checker p extra) e = []) ->
   (forall e, In e (parse p p) ->
-             ~ differs_from_reference equals (file_reference parse isfile p ref) e) ->
+             equal_to_reference equals (file_reference parse isfile p ref) e) ->
   lint_file p ref extra = Ok [].
 Proof. exact (lint_file_clean' keqb keqb_eq equals table plugins parse isfile Tests get_checker). Qed.
 
@@ -203,6 +207,85 @@ Proof.
   apply ctx_linecol_spec. split; [apply Z.add_nonneg_nonneg; assumption|exact H2].
 Qed.
 
+(* ---- end to end for .properties: text x text -> result list ------------------------------
+   The linted file is the text of a block list of Proofs/C02BlocksJunk.v (entities with
+   attached comments and continuation lines, standalone comments, whitespace, GARBAGE
+   regions; keys may repeat), the reference the text of a legal block list of
+   Proofs/C02Blocks.v.  [lint_properties] (Model/LintProps.v) parses both TEXTS with the
+   parser model, builds the entity objects (key, raw value, position methods over the C17
+   line index), compares with Entry.equals over the unescaped values and runs the linter;
+   no parse is supplied from outside.  Its result is [expected] (Proofs/LintPropsE2E.v),
+   computed from the blocks alone, in file order:
+   - a garbage region: one "unparsed content" error from [lc pre] to [lc (pre ++ region)],
+     where [pre] is the text before it and [lc pre] = (1 + newlines in pre, 1 + characters
+     since the last newline of pre);
+   - an entity block: a "duplicate" error at the start of its key if [key_occurrences], the number
+     of entity blocks with the key, exceeds 1 -- that is at EVERY occurrence of a repeated key,
+     the first one too, as the implementation does -- and a "changed" warning at the same
+     place if the last entity block of the reference with the key ([ref_value]) has a value
+     that unescapes differently;
+   - nothing else.
+   Premises beyond legality of the blocks ([block_key_ok]): no key starts with "_junk_" (a
+   key spelt like a junk key would count as a repetition of that Junk object's key), and
+   the values unescape (a value on which the unescape raises makes equals raise).
+   Blocks with the same key are covered: the block theorems assume nothing about keys.
+   The checker is a parameter: silent in the first theorem; arbitrary in the second, which
+   says that whatever the checks add, the other findings are exactly [expected]. *)
+Theorem C19_end_to_end_properties :
+  forall (Msg : Type) (chk : option (@checker str Msg)) (all : list jblock)
+         (rref : option (list block)) (j0 : nat),
+  Forall legal_jblock all -> jadjacent_ok all -> Forall block_key_ok all ->
+  match rref with
+  | Some rbs => Forall legal_block rbs /\ adjacent_ok rbs /\
+                Forall (fun b => block_key_ok (JB b)) rbs
+  | None => True
+  end ->
+  (forall e, match chk with Some c => c e e | None => [] end = []) ->
+  lint_properties j0 chk (jfile_text all) (option_map file_text rref) =
+  Ok (expected all rref [] all).
+Proof. intros Msg chk all rref j0. exact (e2e_properties_silent chk all rref j0). Qed.
+
+Theorem C19_end_to_end_properties_checks :
+  forall (Msg : Type) (chk : option (@checker str Msg)) (all : list jblock)
+         (rref : option (list block)) (j0 : nat),
+  Forall legal_jblock all -> jadjacent_ok all -> Forall block_key_ok all ->
+  match rref with
+  | Some rbs => Forall legal_block rbs /\ adjacent_ok rbs /\
+                Forall (fun b => block_key_ok (JB b)) rbs
+  | None => True
+  end ->
+  forall fs, lint_properties j0 chk (jfile_text all) (option_map file_text rref) = Ok fs ->
+  filter (fun f => negb (is_check f)) fs = expected all rref [] all.
+Proof. intros Msg chk all rref j0. exact (e2e_properties chk all rref j0). Qed.
+
+(* the text  k=v / zz / # c / k=w / m=1  against the reference text  k=v / m=2 : the premises
+   hold, and the model run on the TEXTS (regex engine and all) gives the five findings *)
+Example C19_example_end_to_end :
+  Forall legal_jblock e2e_file /\ jadjacent_ok e2e_file /\ Forall block_key_ok e2e_file /\
+  Forall legal_block e2e_ref /\ adjacent_ok e2e_ref /\
+  Forall (fun b => block_key_ok (JB b)) e2e_ref /\
+  jfile_text e2e_file = [107; 61; 118; 10; 122; 122; 10; 35; 32; 99; 10;
+                         107; 61; 119; 10; 109; 61; 49; 10]%N /\
+  @lint_properties nat 0 None (jfile_text e2e_file) (Some (file_text e2e_ref)) =
+  Ok [mkFinding 1 1 LError (MDuplicate [107%N]);
+      mkFinding 2 1 LError (MJunk 4 (2, 1) (3, 1));
+      mkFinding 4 1 LError (MDuplicate [107%N]);
+      mkFinding 4 1 LWarning (MChanged [107%N]);
+      mkFinding 5 1 LWarning (MChanged [109%N])] /\
+  @expected nat e2e_file (Some e2e_ref) [] e2e_file =
+     [mkFinding 1 1 LError (MDuplicate [107%N]);
+      mkFinding 2 1 LError (MJunk 4 (2, 1) (3, 1));
+      mkFinding 4 1 LError (MDuplicate [107%N]);
+      mkFinding 4 1 LWarning (MChanged [107%N]);
+      mkFinding 5 1 LWarning (MChanged [109%N])].
+Proof.
+  split; [repeat constructor|]. split; [vm_compute; reflexivity|].
+  split; [repeat constructor; eexists; vm_compute; reflexivity|].
+  split; [repeat constructor|]. split; [vm_compute; reflexivity|].
+  split; [repeat constructor; eexists; vm_compute; reflexivity|].
+  split; [vm_compute; reflexivity|]. split; vm_compute; reflexivity.
+Qed.
+
 (* ---- non-vacuity: a concrete run, evaluated by the kernel ----------------
    text "a=1 / b=2 / a=3 / zz", reference "a=1 / b=9", a checker warning at the
    value of b: duplicate errors on lines 1 and 3, changed warnings for b and for
@@ -238,15 +321,15 @@ Qed.
 Example C19_example_clean :
   NoDup (map e_key ex_clean) /\
   (forall e, In e ex_clean -> e_junk e = false) /\
-  (forall e, In e ex_clean -> ~ differs_from_reference ex_equals (Some ex_ref) e) /\
+  (forall e, In e ex_clean -> equal_to_reference ex_equals (Some ex_ref) e) /\
   lint_entities Z.eqb ex_equals (new_linter Z.eqb ex_clean (@None (@checker Z Z)) (Some ex_ref)) ex_clean = Ok [].
 Proof.
   split; [repeat constructor; intros []|]. split; [intros e [<-|[]]; reflexivity|].
   split; [|vm_compute; reflexivity].
-  intros e [<-|[]] (rl & pre & r & post & H1 & H2 & H3 & H4 & H5).
+  intros e [<-|[]] rl pre r post H1 H2 H3 H4.
   injection H1 as H1. subst rl. unfold ex_ref in H2.
   destruct pre as [|a [|b [|c pre]]]; cbn [app] in H2.
-  - injection H2 as Hr _. subst r. vm_compute in H5. discriminate.
+  - injection H2 as Hr _. subst r. reflexivity.
   - injection H2 as _ Hr _. subst r. vm_compute in H3. discriminate.
   - injection H2 as _ _ Hn. discriminate.
   - injection H2 as _ _ Hn. discriminate.
